@@ -38,7 +38,7 @@ def worker(i):
             break
         subprocess.run(["git", "-C", wt, "checkout", "-q", "--", "."], check=True)
         subprocess.run(["git", "-C", wt, "apply", f"/verif/{a.dir}/{s}/patch.diff"], check=True)
-        target = json.load(open(f"/verif/{a.dir}/{s}/meta.json"))["property"] if os.path.exists(f"/verif/{a.dir}/{s}/meta.json") else "-"
+        target = (json.load(open(f"/verif/{a.dir}/{s}/meta.json")).get("property", "-") if os.path.exists(f"/verif/{a.dir}/{s}/meta.json") else "-")
         for p in ([target] if a.targets_only and target in props else props):
             r = subprocess.run([os.environ.get("XCHECK", "./check"), p, "--no-evidence"], cwd="/verif", env=env, capture_output=True, text=True)
             lines = [l for l in r.stdout.split("\n") if l.startswith(("VIOLATION", "UNDECIDED", "KNOWN"))]
